@@ -101,17 +101,36 @@ def extract(repo_twin_factory):
         def evaluate(self, *a, **k):
             trace.append(("EVAL",))
             return {"g": (Res(), None)}
-    agg = A.Panoptica_Aggregator.__new__(A.Panoptica_Aggregator)
-    agg._Panoptica_Aggregator__panoptica_evaluator = Ev()
-    agg._Panoptica_Aggregator__class_group_names = ["g"]
-    agg._Panoptica_Aggregator__evaluation_metrics = ["tp"]
-    agg._Panoptica_Aggregator__output_file = "/d/results.tsv"
-    agg._Panoptica_Aggregator__output_buffer_file = "/d/results_panoptica_aggregator_tmp.tsv"
+    def bare():
+        agg = A.Panoptica_Aggregator.__new__(A.Panoptica_Aggregator)
+        agg._Panoptica_Aggregator__panoptica_evaluator = Ev()
+        agg._Panoptica_Aggregator__class_group_names = ["g"]
+        agg._Panoptica_Aggregator__evaluation_metrics = ["tp"]
+        agg._Panoptica_Aggregator__output_file = "/d/results.tsv"
+        agg._Panoptica_Aggregator__output_buffer_file = "/d/results_panoptica_aggregator_tmp.tsv"
+        return agg
+
+    def fresh():
+        """the aggregator as every worker sees it when its call starts: the state the real constructor leaves (over the file model, new output
+        file).  Built anew for every explored call, so object state a call leaves behind is NOT seen by the next one - the semantics of
+        forked worker processes, each with its own copy; code that keeps no such state behaves the same under threads."""
+        fsm = getattr(T, "_pv_fs", None)
+        try:
+            if fsm is not None:
+                fsm.__init__()
+                fsm.dirs.add("/d")
+            return A.Panoptica_Aggregator(Ev(), "/d/results.tsv")
+        except EngineSignal:
+            raise
+        except Exception:
+            return bare()
+    holder = {}
     out = {}
-    for meth, call in (("evaluate", lambda: agg.evaluate(None, None, "NAME")), ("make_statistic", lambda: agg.make_statistic())):
+    for meth, call in (("evaluate", lambda: holder["agg"].evaluate(None, None, "NAME")), ("make_statistic", lambda: holder["agg"].make_statistic())):
         traces = []
 
         def run():
+            holder["agg"] = fresh()
             del trace[:]
             counter[0] = 0
             call()
